@@ -11,12 +11,13 @@ META = {
                '(quick) / every string of length <= 5 (thorough), over the alphabet { @ [ ] : / . > - 0 1 A space }',
                'print/parse round trip of path OBJECTS: subset slice or last component slice with start / stop / step each absent or a solver integer in -2..2 (int index 0..2), 1..2 (3) components, every separator',
                'parser re-use: any first string of length <= 4 (5) over { @ [ ] : / A 1 space } followed by one of 3 valid expressions on the same parser object',
+               'insertions: a solver string of <= 1 (2) characters over the alphabet at every position of 5 well-formed expressions of 5..12 characters',
                'second harness: strings <= 3 over the alphabet widened by { x _ + 9 newline e-acute } (only the exception type is asserted); thorough also one unrestricted code point between two alphabet characters'],
     'assumptions': ['oracle: recursive-descent recogniser written from the EBNF in docs/internals.rst with Python slice semantics',
                     "don't-care (documentation silent, parser lenient/strict either way): ID tokens containing characters other than digits and capital "
                     "letters; a leading '.' separator (the repository's own tests pin it as an error)",
                     'CrossHair realises string lengths and some characters while exploring (finite domain, solver-driven enumeration)'],
-    'outside': ['strings longer than the bound; single-character mutations of long grammar-derived expressions'],
+    'outside': ['strings longer than the bound other than the insertions above'],
     'trusted_base': ['CrossHair 0.0.110 string model / z3 5.1 sequences'],
 }
 
@@ -45,6 +46,9 @@ def jobs(tier, seed):
                      timeout=900, witnesses=['roundtrip']))
     J.append(Job('parser-reuse', 'harness.c15', 'h_reuse', {'maxlen': 5 if thorough else 4}, timeout=3000 if thorough else 900,
                  witnesses=['first-accepted', 'first-rejected']))
+    for k in range(5):
+        J.append(Job('insert:skeleton%d' % k, 'harness.c15', 'h_insert', {'skeleton': k, 'maxlen': 2 if thorough else 1},
+                     timeout=7000 if thorough else 900, witnesses=['accepted', 'rejected'], core=not thorough))
     J.append(Job('wide-alphabet', 'harness.c15', 'h_wide', {'maxlen': 3 if thorough else 2}, timeout=900, witnesses=['accepted', 'rejected']))
     if thorough:
         J.append(Job('anychar', 'harness.c15', 'h_anychar', {'prefix': 1, 'suffix': 1}, timeout=3000, witnesses=['rejected'], core=False))
